@@ -34,22 +34,24 @@ def c20(ctx: Ctx):
     else:
         # Tiers.  The generators know the full products; a registered run takes seeded slices of them (TLC-side: the strides
         # below select nodes / graphs by VERIF_SEED).  VERIF_C20_FULL=1 (manual use, not registered) runs the full products.
-        #   quick:    every tree operator at every node in the default run configuration; the other configurations (entry points,
-        #             switch off, YAML) on 1/8 of the nodes; sparse bases on 1/3 of their nodes; lexical operators on 1/10 of the nodes;
-        #             graphs of <= 2 steps exhaustively (default + all-external; one-factor-at-a-time for <= 1 step) + 1/8 of the 3-step graphs
+        #   quick:    type / structure operators at every node, schema operators at every schema object, reference operators on 1/2 of the
+        #             nodes, in the default run configuration; the other configurations (entry points, switch off, YAML) of the reference
+        #             operators / null / delete / truncate on the nodes of that half that are also in a 1/5 slice; sparse bases on 1/5 of
+        #             their nodes; lexical operators on 1/15 of the nodes; numeric keyword operators on 1/6 of the schema objects; graphs of
+        #             <= 2 steps exhaustively (default + all-external; one-factor-at-a-time for <= 1 step) + 1/12 of the 3-step graphs
         #   thorough: all of the above at stride 1 except lexical operators (1/2 of the nodes); pairs = first mutation on 1/28 of the nodes
         #             x second mutation on 1/64 of the nodes (all of them run); graphs of <= 3 steps exhaustively + 1/4 of the 4-step graphs
         full = os.environ.get("VERIF_C20_FULL", "") == "1"
-        T = dict(quick=dict(maxmut=1, pair=1, first=1, var=8, sparse=3, lex=10, num=6, g=(3, 1, 1, 2, 8)),
-                 thorough=dict(maxmut=2, pair=64, first=28, var=1, sparse=1, lex=2, num=1, g=(4, 1, 1, 3, 4)))[ctx.tier]
+        T = dict(quick=dict(maxmut=1, pair=1, first=1, var=5, sparse=5, lex=15, num=6, ref=2, g=(3, 1, 1, 2, 12)),
+                 thorough=dict(maxmut=2, pair=64, first=28, var=1, sparse=1, lex=2, num=1, ref=1, g=(4, 1, 1, 3, 4)))[ctx.tier]
         if full:
-            T = dict(quick=dict(maxmut=1, pair=1, first=1, var=1, sparse=1, lex=1, num=1, g=(3, 1, 1, 3, 1)),
-                     thorough=dict(maxmut=2, pair=32, first=1, var=1, sparse=1, lex=1, num=1, g=(4, 2, 2, 4, 1)))[ctx.tier]
+            T = dict(quick=dict(maxmut=1, pair=1, first=1, var=1, sparse=1, lex=1, num=1, ref=1, g=(3, 1, 1, 3, 1)),
+                     thorough=dict(maxmut=2, pair=32, first=1, var=1, sparse=1, lex=1, num=1, ref=1, g=(4, 2, 2, 4, 1)))[ctx.tier]
         maxmut, stride, lexstride = T["maxmut"], T["pair"], T["lex"]
         sparse_ops = ('{"delete", "to_null", "to_empty_obj"}' if ctx.tier == "quick" else
                       '{"to_null", "to_bool", "to_num", "to_str", "to_arr", "to_obj", "to_empty_obj", "to_empty_str", "delete", "dup_key_other_type", "nest_deep", "huge_number", "ref_dangling", "ref_hash_only", "ref_empty"}')
-        cfg = ("SPECIFICATION Spec\nCONSTANTS NNodes = %d\n MaxMut = %d\n PairStride = %d\n FirstStride = %d\n VarStride = %d\n SparseStride = %d\n LexStride = %d\n NumStride = %d\n Seed = %d\n SparseNodes = 30\n SparseOps = %s\nINVARIANT Emit\nCHECK_DEADLOCK FALSE\n"
-               % (nn, maxmut, stride, T["first"], T["var"], T["sparse"], lexstride, T["num"], ctx.seed, sparse_ops))
+        cfg = ("SPECIFICATION Spec\nCONSTANTS NNodes = %d\n MaxMut = %d\n PairStride = %d\n FirstStride = %d\n VarStride = %d\n SparseStride = %d\n LexStride = %d\n NumStride = %d\n RefStride = %d\n Seed = %d\n SparseNodes = 30\n SparseOps = %s\nINVARIANT Emit\nCHECK_DEADLOCK FALSE\n"
+               % (nn, maxmut, stride, T["first"], T["var"], T["sparse"], lexstride, T["num"], T["ref"], ctx.seed, sparse_ops))
         open(ctx.spec("Gen_C20_run.cfg"), "w").write(cfg)
         # development aid: VERIF_C20_ONLY=graph|mut restricts the run to one half of the universe (a full run sets nothing)
         only = os.environ.get("VERIF_C20_ONLY", "")
